@@ -26,7 +26,7 @@ use std::sync::{Arc, Mutex};
 use futures_lite::StreamExt;
 use serde_json::json;
 use vcommon::{catch, hash64, hex, par_for, unhex, Args, Report, Tier, Violation};
-use zbus::{connection::Builder, zvariant::Endian, Message, MessageStream};
+use zbus::{connection::Builder, Message, MessageStream};
 
 use crate::{
     refmsg::{self as rm, o, s, var, MsgSpec, Ty, RV},
@@ -345,6 +345,34 @@ fn describe(c: &Case) -> String {
     }
 }
 
+fn case_json(c: &Case) -> serde_json::Value {
+    let u = match &c.unknown {
+        Unknown::Field { code, payload, first } => json!({"field": {"code": code, "payload": payload, "first": first}}),
+        Unknown::Flags { bits } => json!({"flags": bits}),
+        Unknown::Type { code } => json!({"type": code}),
+        Unknown::Nothing => json!("nothing"),
+    };
+    json!({"base": c.base, "be": c.be, "unknown": u})
+}
+
+fn case_from_json(v: &serde_json::Value) -> Option<Case> {
+    let u = &v["unknown"];
+    let unknown = if let Some(f) = u.get("field") {
+        Unknown::Field {
+            code: f["code"].as_u64()? as u8,
+            payload: f["payload"].as_u64()? as usize,
+            first: f["first"].as_bool()?,
+        }
+    } else if let Some(b) = u.get("flags") {
+        Unknown::Flags { bits: b.as_u64()? as u8 }
+    } else if let Some(t) = u.get("type") {
+        Unknown::Type { code: t.as_u64()? as u8 }
+    } else {
+        Unknown::Nothing
+    };
+    Some(Case { base: v["base"].as_u64()? as usize, be: v["be"].as_bool()?, unknown })
+}
+
 pub fn check_case(c: &Case) -> Verdict {
     let spec = x_spec(c);
     let (x, _) = spec.encode();
@@ -352,7 +380,7 @@ pub fn check_case(c: &Case) -> Verdict {
     let kind = unknown_kind(&c.unknown);
     // INVALID (0) codes are not "unknown": observed only
     let judged = !matches!(c.unknown, Unknown::Field { code: 0, .. } | Unknown::Type { code: 0 });
-    let replay = json!({"x": hex(&x), "kind": kind, "what": describe(c), "judged": judged});
+    let replay = json!({"x": hex(&x), "kind": kind, "what": describe(c), "judged": judged, "case": case_json(c)});
     let mut vs = vec![];
 
     // the harness's own messages must be valid under the reference parser
@@ -489,8 +517,6 @@ fn replay(path: &str) -> i32 {
         }
         Err(e) => println!("reference parse: INVALID ({e})"),
     }
-    let endian = if x.first() == Some(&b'B') { Endian::Big } else { Endian::Little };
-    let _ = endian;
     match catch(|| parse_message(&x).map(|m| read_msg(&m)).map_err(|e| format!("{e:?}"))) {
         Ok(Ok(r)) => println!("Message::from_bytes: Ok, reads {r:?}"),
         Ok(Err(e)) => println!("Message::from_bytes: Err({e}) [class {}]", parse_error_class(&e)),
@@ -503,11 +529,19 @@ fn replay(path: &str) -> i32 {
         ),
         Err(p) => println!("stream scenario: PANIC {p}"),
     }
-    let violated = v["clause"].as_str().is_some();
-    if violated {
-        1
-    } else {
+    let Some(case) = case_from_json(&r["case"]) else {
+        vcommon::machinery_failure("C13 replay: the artefact has no case description");
+    };
+    let verdict = check_case(&case);
+    println!("outcome: {}", verdict.outcome);
+    for v in &verdict.violations {
+        println!("violation: clause={} features={:?} {}", v.clause, v.features, v.detail);
+    }
+    if verdict.violations.is_empty() {
+        println!("no violation on this case");
         0
+    } else {
+        1
     }
 }
 
